@@ -229,3 +229,55 @@ def coeffs2d(S1, S2, U):
 
 def eval2d(S1, S2, C, x, y, d1=0, d2=0):
     return S1.row(x, d1) @ C @ S2.row(y, d2)
+
+
+# ------------------------------------------------------------------ float evaluation (for feet)
+def _bvals_f(T, d, x, s):
+    N = [1.0]
+    for k in range(1, d + 1):
+        M = [0.0] * (k + 1)
+        for r in range(k):
+            i = s - k + 1 + r
+            den = T[i + k] - T[i]
+            if den != 0:
+                M[r] += N[r] * (T[i + k] - x) / den
+                M[r + 1] += N[r] * (x - T[i]) / den
+        N = M
+    return N
+
+
+def _bders_f(T, d, x, s):
+    N = _bvals_f(T, d - 1, x, s)
+    D = [0.0] * (d + 1)
+    for r in range(d):
+        i = s - d + 1 + r
+        den = T[i + d] - T[i]
+        if den != 0:
+            D[r] -= d * N[r] / den
+            D[r + 1] += d * N[r] / den
+    return D
+
+
+def row_float(S, x, der=0):
+    """float Cox-de Boor row of RefSpace S at x (same algorithm as the exact one, in doubles);
+    used where many arbitrary points are needed (characteristic feet)."""
+    if not hasattr(S, '_Tf'):
+        S._Tf = [float(t) for t in S.T]
+    T = S._Tf
+    d = S.d
+    hi = len(T) - 1 - d
+    if x >= T[hi]:
+        s = hi - 1
+        while T[s] == T[s + 1]:
+            s -= 1
+    else:
+        s = d
+        while not (T[s] <= x < T[s + 1]):
+            s += 1
+            if s >= hi:
+                s = hi - 1
+                break
+    b = _bvals_f(T, d, x, s) if der == 0 else _bders_f(T, d, x, s)
+    row = np.zeros(S.nc)
+    row[s - d:s + 1] = b
+    return row
